@@ -41,6 +41,60 @@ CLASSES = [
 REV_ONLY = {"l", "l_q", "l_dot", "l_dot_q", "l_dot_u", "W_l", "W_l_q"}
 
 
+def r8_maxwell_polarity(ctx):
+    """MaxwellElement: the elongation l(q_ext) and the damper coordinate l_d = q[0] enter every primal only through the
+    difference (l - l_d - l_ref).  Hence in each q-derivative routine the l_d column (index 0) carries the opposite sign of the
+    l_q term of the q_ext columns (index 1:)."""
+    from .. import twobody
+    rep = ctx.rep
+    ci = ctx.model.cls("MaxwellElement")
+    # premise: the difference form in the primals
+    prem = 0
+    for name in ("q_dot", "force", "E_pot"):
+        fn = ci.methods.get(name)
+        if fn is None:
+            raise AnalysisError(f"MaxwellElement.{name} vanished")
+        for b in ast.walk(fn):
+            if isinstance(b, ast.BinOp) and isinstance(b.op, ast.Sub) and isinstance(b.left, ast.BinOp) and isinstance(b.left.op, ast.Sub) \
+                    and norm_src(b.right) == "self.l_ref" and norm_src(b.left.right) in ("l_d", "q[0]") and "subsystem.l(" in norm_src(b.left.left):
+                prem += 1
+    if prem < 3:
+        rep.note("C08.R8: MaxwellElement primals no longer have the form (l - l_d - l_ref); polarity rule not applicable")
+        return
+    for name in ("q_dot_q", "h_q"):
+        fn = ci.methods.get(name)
+        if fn is None:
+            raise AnalysisError(f"MaxwellElement.{name} vanished")
+        C = f"{ci.rel}:MaxwellElement.{name}"
+        defs = {}
+        for n in ast.walk(fn):
+            if isinstance(n, ast.Assign) and len(n.targets) == 1 and isinstance(n.targets[0], ast.Name):
+                defs.setdefault(n.targets[0].id, []).append(n.value)
+        s_l, s_d, st_d = set(), set(), None
+        for n in ast.walk(fn):
+            tgt = n.targets[0] if isinstance(n, ast.Assign) and len(n.targets) == 1 else (n.target if isinstance(n, ast.AugAssign) else None)
+            if not isinstance(tgt, ast.Subscript) or norm_src(tgt.value) != name:
+                continue
+            sl = tgt.slice
+            last = sl.elts[-1] if isinstance(sl, ast.Tuple) else sl
+            base = -1 if isinstance(n, ast.AugAssign) and isinstance(n.op, ast.Sub) else 1
+            if isinstance(last, ast.Constant) and last.value == 0:
+                s_d.add(base * twobody.csign(n.value, defs))
+                st_d = n
+            elif isinstance(last, ast.Slice) and last.lower is not None and norm_src(last.lower) == "1" and last.upper is None:
+                for d, sg, call in twobody.signed_calls(n.value, defs, base):
+                    if d.endswith("subsystem.l_q"):
+                        s_l.add(sg)
+        if len(s_l) == 1 and len(s_d) == 1:
+            if list(s_l)[0] == -list(s_d)[0]:
+                rep.ok("C08.R8", C, f"l_q term enters with sign {list(s_l)[0]:+d}, the damper column with {list(s_d)[0]:+d} (opposite, as in l - l_d)")
+            else:
+                rep.bad("C08.R8", C, st_d, f"the damper-coordinate column has the same sign ({list(s_d)[0]:+d}) as the l_q term of the other columns, but l and l_d enter "
+                        f"`{name[:-2]}` only through (l - l_d - l_ref): d/dl_d must be minus d/dl", f"{ci.rel}:{st_d.lineno}")
+        else:
+            rep.note(f"C08.R8: {C}: signs not determinate (l_q: {sorted(s_l)}, damper column: {sorted(s_d)})")
+
+
 def run(ctx):
     rep = ctx.rep
     rep.rule("C08.R1", "chain-rule coverage of force-element / actuator derivatives (K5)", 40)
@@ -58,6 +112,8 @@ def run(ctx):
                 raise AnalysisError(f"{ci.rel}:{cname}.{name} vanished")
             twobody.check_typing(rep, "C08.R6", f"{ci.rel}:{cname}.{name}", ci.rel, fn)
         twobody.check_polarity(rep, "C08.R7", ci, chain)
+    rep.rule("C08.R8", "MaxwellElement: damper-coordinate column has the opposite sign of the l_q term", 2)
+    r8_maxwell_polarity(ctx)
     rep.rule("C08.R5", "Leibniz image of the primal's factor monomials equals the derivative routine's monomials (K10)", 8)
     from .. import support
     for cname in ("Revolute", "TwoPointInteraction"):
@@ -160,7 +216,7 @@ MUTANTS = [
          old="                self.kp * self.subsystem.l_q(t, q[1:])\n                + self.kd * self.subsystem.l_dot_q(t, q[1:], u)\n            ]\n        )\n        return la_tau_q",
          new="                self.kp * self.subsystem.l_q(t, q[1:])\n            ]\n        )\n        return la_tau_q", expect="C08.R1"),
     dict(id="c08-m5", what="MaxwellElement.h_q drops the W_l_q term", file=MX,
-         old="            self.subsystem.W_l_q(t, qext)\n            * self.k\n            * (self.subsystem.l(t, qext) - l_d - self.l_ref)\n            + np.outer(", new="            np.outer(", expect="C08.R1"),
+         old="            self.subsystem.W_l_q(t, qext).reshape(self._nu, self._nq - 1)\n            * self.k\n            * (self.subsystem.l(t, qext) - l_d - self.l_ref)\n            + np.outer(", new="            np.outer(", expect="C08.R1"),
     dict(id="c08-m6", what="TwoPointInteraction.W_l_q forgets the direction derivative n_q", file=TPI,
          old="        n_q1, n_q2 = self._n_q(t, q)\n        J_P1 = self.J_P1(t, q)\n        J_P2 = self.J_P2(t, q)\n        J_P1_q",
          new="        n_q1, n_q2 = 0 * q[:3, None].T, 0 * q[:3, None].T\n        J_P1 = self.J_P1(t, q)\n        J_P2 = self.J_P2(t, q)\n        J_P1_q", expect="C08.R1"),
@@ -187,7 +243,15 @@ MUTANTS += [
     dict(id="c08-k9-2", what="Revolute.W_l_q: the J_R2_q2 term is stored in the body-1 coordinate block", file=REV,
          old="        W_angle_q[nu1:, 0, nq1:] = np.einsum(\"i,ijk->jk\", e_c1, J_R2_q2)", new="        W_angle_q[nu1:, 0, :nq1] += np.einsum(\"i,ijk->jk\", e_c1, J_R2_q2)", expect="C08.R6"),
 ]
+MUTANTS += [
+    dict(id="c08-r8-1", canary=True, what="MaxwellElement.h_q: damper column subtracted (original defect)", file=MX,
+         old="        h_q[:, 0] += self.subsystem.W_l(t, q[1:]).reshape(self._nu) * self.k", new="        h_q[:, 0] -= self.subsystem.W_l(t, q[1:]).reshape(self._nu) * self.k", expect="C08.R8"),
+    dict(id="c08-r8-2", what="MaxwellElement.q_dot_q: damper entry added instead of subtracted", file=MX,
+         old="        q_dot_q[0] -= self.k / self.eta", new="        q_dot_q[0] += self.k / self.eta", expect="C08.R8"),
+]
 NEUTRAL = [
+    dict(id="c08-n-r8", canary=True, what="MaxwellElement.h_q: damper column written as a plain assignment", file=MX,
+         old="        h_q[:, 0] += self.subsystem.W_l(t, q[1:]).reshape(self._nu) * self.k", new="        h_q[:, 0] = self.k * self.subsystem.W_l(t, q[1:]).reshape(self._nu)"),
     dict(id="c08-n1", canary=True, what="la_c_q with locals", file=FB,
          old="        return self._la_c_l(t, self.l(t, q), self.l_dot(t, q, u)) * self.l_q(\n            t, q\n        ) + self._la_c_l_dot(t, self.l(t, q), self.l_dot(t, q, u)) * self.l_dot_q(\n            t, q, u\n        )",
          new="        l, l_dot = self.l(t, q), self.l_dot(t, q, u)\n        a = self._la_c_l(t, l, l_dot) * self.l_q(t, q)\n        b = self._la_c_l_dot(t, l, l_dot) * self.l_dot_q(t, q, u)\n        return a + b"),
